@@ -5,6 +5,7 @@ Import ListNotations.
 Local Open Scope string_scope.
 
 Section Proofs.
+  Variable writable : string -> bool.
   Variable assemble compile : bytes -> option bytes.
   Variable simulate : bytes -> bytes -> option (Z * bytes).
 
@@ -57,8 +58,8 @@ Section Proofs.
      status, file system untouched *)
   Theorem hexasm_status f o fsys src argv : plain f -> (In argv (shapes f o) \/ (argv = [f] /\ o = "a.out")) -> fsys f = Some src ->
     match assemble src with
-    | Some bin => hexasm_main assemble argv fsys = ok (fs_set fsys o bin)
-    | None => hexasm_main assemble argv fsys = fail fsys
+    | Some bin => hexasm_main writable assemble argv fsys = if writable o then ok (fs_set fsys o bin) else fail fsys
+    | None => hexasm_main writable assemble argv fsys = fail fsys
     end.
   Proof.
     intros Hp Hargv Hsrc. unfold hexasm_main.
@@ -99,8 +100,8 @@ Section Proofs.
 
   Theorem xcmp_status f o fsys src argv : plain f -> (In argv (shapes f o) \/ (argv = [f] /\ o = "a.out")) -> fsys f = Some src ->
     match compile src with
-    | Some bin => xcmp_main compile argv fsys = ok (fs_set fsys o bin)
-    | None => xcmp_main compile argv fsys = fail fsys
+    | Some bin => xcmp_main writable compile argv fsys = if writable o then ok (fs_set fsys o bin) else fail fsys
+    | None => xcmp_main writable compile argv fsys = fail fsys
     end.
   Proof.
     intros Hp Hargv Hsrc. unfold xcmp_main.
@@ -129,9 +130,9 @@ Section Proofs.
   Proof. intros Hp Hb Hs. unfold hexsim_main. rewrite hexsim_file_arg by assumption. rewrite Hb, Hs. reflexivity. Qed.
 
   (* xrun = xcmp followed by hexsim on the result: same status, same output; a compile error gives xcmp's failure *)
-  Theorem xrun_is_compose f fsys src input : plain f -> fsys f = Some src -> f <> "a.bin" ->
-    let c := xcmp_main compile [f; "-o"; "a.bin"] fsys in
-    let r := xrun_main compile simulate [f] input fsys in
+  Theorem xrun_is_compose f fsys src input : plain f -> fsys f = Some src -> f <> "a.bin" -> writable "a.bin" = true ->
+    let c := xcmp_main writable compile [f; "-o"; "a.bin"] fsys in
+    let r := xrun_main writable compile simulate [f] input fsys in
     match compile src with
     | None => status r = status c /\ diagnostic r = diagnostic c /\ status r <> 0%Z /\ files r = fsys
     | Some bin =>
@@ -140,11 +141,11 @@ Section Proofs.
         status r = status h /\ out r = out h /\ diagnostic r = diagnostic h
     end.
   Proof.
-    intros Hp Hsrc Hne. cbv zeta.
+    intros Hp Hsrc Hne Hw. cbv zeta.
     pose proof (xcmp_status f "a.bin" fsys src [f; "-o"; "a.bin"] Hp (or_introl (or_introl eq_refl)) Hsrc) as Hc.
     unfold xrun_main. rewrite xrun_file_arg by assumption. rewrite Hsrc.
     destruct (compile src) as [bin|].
-    - rewrite Hc. cbn [status ok files]. split; [reflexivity|].
+    - rewrite Hc, Hw. cbn [negb]. cbn [status ok files]. split; [reflexivity|].
       unfold hexsim_main. rewrite hexsim_file_arg by reflexivity.
       unfold fs_set at 1. cbn [String.eqb Ascii.eqb Bool.eqb]. 
       destruct (simulate bin input) as [[v o]|] eqn:Es; cbn; rewrite ?Es; cbn; auto.
